@@ -398,7 +398,11 @@ func floatClasses(r *rand.Rand, n int) map[string][]string {
 		"2.2250738585072014e-308", "2.2250738585072011e-308", "2.225073858507201e-308", "1.7976931348623157e308", "1.7976931348623158e308",
 		"1.797693134862315807e308", "1.797693134862315808e308", "1.8e308", "1e308", "1e309", "-1e309", "1e400", "1e-400", "1e-10000", "1e10000",
 		"1.401298464324817e-45", "7e-46", "3.4028234663852886e38", "3.4028235677973366e38", "3.4028235677973367e38", "3.5e38", "1e39",
-		"1.1754943508222875e-38", "1.17549421e-38"} {
+		"1.1754943508222875e-38", "1.17549421e-38",
+		// between MaxFloat32 and the halfway point to 2^128: rounds down to MaxFloat32 (not an overflow)
+		"3.4028235e+38", "3.40282347e+38", "3.4028235677973362e+38", "3.40282351e38", "340282350000000000000000000000000000000",
+		// just below / above the smallest float32 subnormal's halfway point
+		"7.006492321624085e-46", "7.0064923216240854e-46", "7.006492321624086e-46", "1.4e-45", "2.1e-45", "2.2e-45"} {
 		add("extreme", s)
 		add("extreme", "-"+s)
 	}
